@@ -245,7 +245,7 @@ func (r *recorder) checkCtx(ctx context.Context, command bool) {
 			}
 		}
 	}
-	if command {
+	if command && !r.conn.encrypted {
 		r.conn.mu.Lock()
 		out := append([]byte{}, r.conn.out...)
 		r.conn.mu.Unlock()
@@ -263,6 +263,8 @@ func (r *recorder) checkCtx(ctx context.Context, command bool) {
 				}
 			}
 		}
+	}
+	if command {
 		for i, ok := range r.cfg.mws {
 			if ok {
 				if v, _ := ctx.Value(ctxKeyT(i)).(int); ctx.Value(ctxKeyT(i)) == nil || v != i {
